@@ -268,18 +268,28 @@ func (w *c15worker) check(c c15val) (res *[2]string) {
 	spec := refcodec.FieldSpec{ID: c.ie.ElementId, PEN: c.ie.EnterpriseId, Len: c.ie.Len}
 	field := refcodec.EncodeField(spec, c.raw)
 	want := append(append([]byte{0xa5, 0x5a}, field...), 0x5a, 0xa5)
-	for variant := 0; variant < 2; variant++ {
+	for variant := 0; variant < 3; variant++ {
 		e := c.el()
 		if e.GetLength() != len(field) {
 			return fail("length", "%s value of %d bytes: element reports length %d, RFC 7011 encoding has %d bytes", c.ie.Name, len(c.raw), e.GetLength(), len(field))
 		}
 		els := []entities.InfoElementWithValue{entities.NewUnsigned16InfoElement(w.s1, 0xa55a), e, entities.NewUnsigned16InfoElement(w.s2, 0x5aa5)}
 		var rec entities.Record
-		if variant == 0 {
-			r := entities.NewDataRecord(w.tid, 3, 0, false)
+		if variant == 0 || variant == 2 {
+			n := 3
+			if variant == 2 {
+				n = 0 // not pre-sized: the element list grows with each add, so a mid-build read is well defined
+			}
+			r := entities.NewDataRecord(w.tid, n, 0, false)
 			for _, x := range els {
 				if err := r.AddInfoElement(x); err != nil {
 					return fail("add-error", "%s: %v", c.ie.Name, err)
+				}
+				if variant == 2 {
+					// the application looks at the buffer while the record is still being built
+					if b := r.GetBuffer(); len(b) != r.GetRecordLength() {
+						return fail("record-length", "%s: mid-build buffer has %d bytes, GetRecordLength()=%d", c.ie.Name, len(b), r.GetRecordLength())
+					}
 				}
 			}
 			rec = r
@@ -434,7 +444,7 @@ func runC15(tier, replay string) int {
 	ev.Coverage = common.Coverage{
 		"states": count, "transitions": count * 4, "traces_validated_against_impl": count, "samples": samples[:min(len(samples), 8)],
 		"evaluations": count, "distinct_nontrivial": count,
-		"rule":       "for every supported type one element (registry, or user-registered in enterprise 55555 for signed8/16/64, float32 and fixed-length octet arrays): all 256 / 65536 values of the 8- and 16-bit types, both booleans, ~400 boundary values per 32/64-bit integer and date type, every float32/float64 exponent x 6 mantissas x sign (subnormals, infinities, quiet and signalling NaNs), address patterns, fixed octet arrays of length 0,1,4,254,255,256,65000 and every string / octet-array length in the tier's set (thorough: every length 0..65535); each value is encoded inside a record between two sentinel fields through both record constructors and compared byte-for-byte with the RFC 7011 encoding, GetLength/GetRecordLength/buffer length must agree, and the bytes are decoded back through the collector's field-length reader + element decoder and, when they fit, through a whole message, to the same bits. Values are distinct by construction; per_element gives the count per element",
+		"rule":       "for every supported type one element (registry, or user-registered in enterprise 55555 for signed8/16/64, float32 and fixed-length octet arrays): all 256 / 65536 values of the 8- and 16-bit types, both booleans, ~400 boundary values per 32/64-bit integer and date type, every float32/float64 exponent x 6 mantissas x sign (subnormals, infinities, quiet and signalling NaNs), address patterns, fixed octet arrays of length 0,1,4,254,255,256,65000 and every string / octet-array length in the tier's set (thorough: every length 0..65535); each value is encoded inside a record between two sentinel fields through both record constructors (and once more with the buffer read after every added element) and compared byte-for-byte with the RFC 7011 encoding, GetLength/GetRecordLength/buffer length must agree, and the bytes are decoded back through the collector's field-length reader + element decoder and, when they fit, through a whole message, to the same bits. Values are distinct by construction; per_element gives the count per element",
 		"exhaustive": true, "per_element": per,
 	}
 	ev.Assumptions = []string{"a 4-byte net.IP handed to an ipv6Address element is not in the alphabet (left open by the statement); 16-byte IPv4-mapped values are"}
